@@ -97,7 +97,7 @@ def run(ctx, config="default"):
         eb = rp.d["bb"]
         if whole_array_arg(G, eb, 0) == buf_local and eb in cfg.reachable(G, [fb]):
             muts = [m for m in common.mutations(G) if m["target"] and m["target"]["root"] == "local" and m["target"]["local"] == buf_local]
-            extra = [m for m in muts if not (m["how"] == "mutarg" and m["bb"] == fb) and not (m["how"] == "assign" and not m["target"]["path"] and fb in cfg.reachable(G, [m["bb"]]) and m["bb"] != fb)]
+            extra = [m for m in muts if not (m["how"] == "mutarg" and m["bb"] == fb) and not (m["how"] == "assign" and not m["target"]["path"] and fb in cfg.reachable(G, [m["bb"]]))]   # (a statement of the fill's own block runs before the call that ends it)
             if not extra:
                 okr = True
     if okr:
